@@ -8,11 +8,25 @@ de-duplication path, what a re-Add does to the row that is there, the error clas
 storage layer hands to the service.
 Binding: behaviours replayed on twin real instances (direct and external storage; the real cache behind a gate that
 lets the harness fire the detached cache.Set where the behaviour says), every served entry compared byte for byte;
-storage call counts compared with the specification's hit/miss.  The external twin's storage is, per Dialect, the
+storage call counts compared with the specification's hit/miss.  One process serves several logs (constant Logs):
+every log has its own backend, its own storage table and its own cache, every cache built by the repository's
+constructor (cache.NewIssuanceChainCache) from the same options (LogsIndependent; AckedIsStored: what a log acknowledges
+is in the table of THAT log).  A failed storage.Add leaves no trace - in particular no cache write, now or later - and
+the re-submission (same leaf, or another leaf of the same issuer) stores the chain before it is acknowledged; every
+cache write that arrives at the gate is judged: it is sound only if its own request got that chain into or out of the
+storage under that hash.  get-entries pages: the completion order of the per-leaf work (Orders, materialized as
+latencies of the storage lookups) and a leaf the backend returns garbled (GarbleClasses x position) never change that
+a page with a leaf that cannot be fixed is an error (RangeWhole, GarbledLeafIsError, RangeOrderIrrelevant).  Named
+defects switched on in the model only (cacheOnFailedAdd, sharedCache, pageLastWins) must be refuted by TLC
+(non-vacuity of AckedServable / RangeWhole).  The external twin's storage is, per Dialect, the
 in-memory stand-in or the repository's real mysql / postgresql IssuanceChainStorage running on an in-process
 database/sql driver (harness/sqlfake) that interprets the statements with the dialect's semantics; what the storage
-layer answers and which path the database took are compared with the specification step by step.  Plus an ungated
-concurrent run under -race over the three storage layers.
+layer answers and which path the database took are compared with the specification step by step.  Everything handed
+to a storage must decode (with a DER reader of the harness' own) to the submitted chain under its own SHA-256.  Plus an
+ungated run under -race over the three storage layers with two logs: failed Add then re-submission with the cache as
+the implementation left it, bursts of overlapping submissions (chains of 0, 1 and 3 certificates), random writers and
+readers, restart and cold reads of every entry; plus the complete page matrix (one unfixable leaf first / middle /
+last x 7 classes x 4 completion orders).
 """
 import json
 from concurrent.futures import ThreadPoolExecutor
@@ -35,7 +49,12 @@ def run(ctx, replay=None):
         "lru / noop cache implementations behind a gating wrapper; TTL expiry exercised only in the ungated concurrent run "
         "where the law is output equality",
         "twin instances share PKI, log key and clock; 5 certificates over 3 issuance chains including the empty chain "
-        "(trusted root submitted alone); three of them share one chain hash (the de-duplication path)",
+        "(trusted root submitted alone); three of them share one chain hash (the de-duplication path); the logs of one "
+        "process (two in the simulated behaviours) share PKI, key and clock as well and differ in backend, table and cache",
+        "the completion order of the per-leaf work of a page is materialized as latencies of the storage lookups "
+        "(time.Sleep of fractions of a millisecond inside the storage stand-in): they perturb the schedule, no verdict "
+        "depends on a duration; a cache write the gate holds longer than 120 s is let through and ends the judging of "
+        "that behaviour (a changed implementation whose request waits for its own detached write would otherwise hang)",
     ]
     if replay:
         with open(replay) as f:
@@ -43,17 +62,34 @@ def run(ctx, replay=None):
         path = ctx.write_ndjson("replay.ndjson", [beh])
         ctx.go_test("cctfe", run="TestChainStore$", env={"VERIF_BEHAVIOURS": path}, timeout=3000)
         return
-    nsim = {"": ctx.pick(150, 3000), "Mysql": ctx.pick(110, 2500), "Postgresql": ctx.pick(110, 2500)}
+    nsim = {"": ctx.pick(130, 3000), "Mysql": ctx.pick(100, 2500), "Postgresql": ctx.pick(100, 2500)}
     # the TLC runs are independent of each other: a few at a time (ctx.tlc keeps its per-run records by appending;
-    # the state counts are added here, in one thread)
-    exhaustive = [(cap, d) for d in DIALECTS for cap in CAPS]
+    # the state counts are added here, in one thread).  Capx configs: one log, every cache kind x dialect, one
+    # completion order and (in-memory layer) one garble class (NextLean); ChainStorePages: every order, a garble class
+    # of each kind, pages of up to three leaves (Big: every class, LRU); ChainStoreLogs: two logs in one process.
+    exhaustive = ["ChainStore%s%s.cfg" % (cap, d) for d in DIALECTS for cap in CAPS]
+    exhaustive += list(ctx.pick(("ChainStorePages.cfg", "ChainStoreLogs.cfg"), ("ChainStorePages.cfg", "ChainStorePagesBig.cfg", "ChainStoreLogs.cfg", "ChainStoreLogsBig.cfg")))
+    # non-vacuity (run alongside): with a named defect switched on in the model TLC must find the acknowledged-but-not-
+    # stored entry (retry after a failed Add whose cache write happened anyway; a second log answered from the first
+    # log's cache) and the page served although a leaf cannot be fixed (the leaf that completes last decides)
+    defects = ["ChainStoreDefectRetry.cfg", "ChainStoreDefectShared.cfg", "ChainStoreDefectPage.cfg"]
+
+    def one(cfg):
+        if cfg in defects:
+            return ctx.tlc("ctfe", "MCChainStore", cfg, workers=2, timeout=600, expect_violation=True, count=False)
+        return ctx.tlc("ctfe", "MCChainStore", cfg, workers=5, timeout=3000, count=False)
+
     with ThreadPoolExecutor(max_workers=3) as pool:
-        for r in list(pool.map(lambda cd: ctx.tlc("ctfe", "MCChainStore", "ChainStore%s%s.cfg" % cd, workers=5, timeout=1500, count=False), exhaustive)):
+        for cfg, r in zip(exhaustive + defects, list(pool.map(one, exhaustive + defects))):
+            if cfg in defects:
+                if not r.violated:
+                    raise Infra(cfg + ": TLC did not refute the property in the defective model (the property would be vacuous)")
+                continue
             ctx.states += r.distinct
             ctx.transitions += r.generated
     sims = [(cap, d) for d in DIALECTS for cap in CAPS]
     with ThreadPoolExecutor(max_workers=4) as pool:
-        results = list(pool.map(lambda cd: ctx.tlc("ctfe", "MCChainStore", "ChainStoreSim%s%s.cfg" % cd, simulate=nsim[cd[1]], depth=34, count=False), sims))
+        results = list(pool.map(lambda cd: ctx.tlc("ctfe", "MCChainStore", "ChainStoreSim%s%s.cfg" % cd, simulate=nsim[cd[1]], depth=40, count=False), sims))
     behs = []
     for (cap, d), r in zip(sims, results):
         b = r.records.get("BEH", [])
